@@ -46,6 +46,58 @@ func NumberText(t *rapid.T) string {
 	return sign + ip + fp + ex
 }
 
+// escAtom returns one character of a name/string/url body, often written as an escape,
+// drawn from an alphabet that reaches every escaping table of the serializer.
+func escAtom(t *rapid.T) string {
+	switch rapid.IntRange(0, 5).Draw(t, "ek") {
+	case 0:
+		return rapid.SampledFrom([]string{"a", "b", "e", "E", "u", "U", "x", "-", "_", "0", "7", "é", "\U0001F600"}).Draw(t, "plain")
+	case 1: // hex escape of an interesting code point, with the optional terminating space
+		cp := rapid.SampledFrom([]int{1, 8, 9, 0xa, 0xb, 0xc, 0xd, 0xe, 0x1f, 0x20, 0x21, 0x22, 0x27, 0x28, 0x29, 0x2d, 0x2f, 0x30, 0x39, 0x41, 0x5c, 0x65, 0x7f, 0x80, 0xa0, 0xe9, 0x2028, 0xfffd, 0x1f600, 0, 0xd800, 0x110000}).Draw(t, "cp")
+		pad := rapid.SampledFrom([]string{"%x ", "%X ", "%06x", "%x\n", "%x\t"}).Draw(t, "pad")
+		return "\\" + fmt.Sprintf(pad, cp)
+	case 2: // simple escape
+		return "\\" + rapid.SampledFrom([]string{"\"", "'", "(", ")", "\\", " ", "-", ".", "g", "!", "~", "{", ";", "é", "\t"}).Draw(t, "simple")
+	default:
+		return rapid.SampledFrom([]string{"a", "z", "Q", "-", "_", "1"}).Draw(t, "plain2")
+	}
+}
+
+// EscBody returns a body of 1..5 atoms.
+func EscBody(t *rapid.T) string {
+	n := rapid.IntRange(1, 5).Draw(t, "nb")
+	var b strings.Builder
+	for i := 0; i < n; i++ {
+		b.WriteString(escAtom(t))
+	}
+	return b.String()
+}
+
+// RichToken returns the text of one token whose value contains escaped characters.
+func RichToken(t *rapid.T) string {
+	body := EscBody(t)
+	switch rapid.IntRange(0, 9).Draw(t, "tk") {
+	case 0:
+		return "\"" + body + "\""
+	case 1:
+		return "'" + body + "'"
+	case 2:
+		return "url(" + body + ")"
+	case 3:
+		return "#" + body
+	case 4:
+		return "@" + body
+	case 5:
+		return body + "(" + rapid.SampledFrom([]string{"", "1", "a,b", "\"x\""}).Draw(t, "fa") + ")"
+	case 6:
+		return NumberText(t) + body
+	case 7:
+		return "url( \"" + body + "\" )"
+	default:
+		return body
+	}
+}
+
 // CSSHostile returns a string built from hostile fragments, identifiers and numbers.
 func CSSHostile(t *rapid.T, maxFrag int) string {
 	n := rapid.IntRange(1, maxFrag).Draw(t, "nfrag")
@@ -61,6 +113,8 @@ func CSSHostile(t *rapid.T, maxFrag int) string {
 			b.WriteString(rapid.SampledFrom([]string{"%", "px", "e", "E", "e3", "E-3", "e-", "-x", "--", "\\65 ", "n", "x"}).Draw(t, "unit"))
 		case 3:
 			b.WriteString(rapid.StringN(1, 3, -1).Draw(t, "junk"))
+		case 4, 5:
+			b.WriteString(RichToken(t))
 		default:
 			b.WriteString(rapid.SampledFrom(cssFragments).Draw(t, "frag"))
 		}
